@@ -280,8 +280,10 @@ def run_deductive(rep, modules, extra_units=None, only=None):
             u = units.verify_lemma(reg, x, rep.pid + "/")
             u.lemma = x
         else:
-            u = units.verify_function(reg, x, rep.pid + "/")
-            u.contract = x
+            for u in units.verify_function_cases(reg, x, rep.pid + "/"):
+                u.contract = x
+                ulist.append(u)
+            continue
         ulist.append(u)
     rep.units.extend(ulist)
     allobl = [o for u in ulist for o in u.obls]
